@@ -86,4 +86,6 @@ run C17 && mut C17 x/projects/keeper/project.go '		if proj.Snapshot != project.S
 run C24 && mut C24 x/pairing/keeper/reputation.go '		} else if score.GT(benchmark) {' '		} else if score.GT(benchmark.MulInt64(2)) {'
 run C24 && mut C24 x/pairing/keeper/reputation.go 'scaledScore = types.MinReputationPairingScore.Add((benchmark.Quo(score)).Mul(scale))' 'scaledScore = types.MinReputationPairingScore.Add((benchmark.Quo(score)).Mul(scale.Add(types.MinReputationPairingScore)))'
 run C24 && mut C24 x/pairing/types/qos_score.go '	qs.Score.Denom = qs.Score.Denom.Add(math.LegacyNewDec(weight))' '	qs.Score.Denom = qs.Score.Denom.Sub(math.LegacyNewDec(weight))'
+run C01 && mut C01 utils/lavaslices/slices.go '	slices.Sort(keys)
+' ''
 exit 0
